@@ -100,8 +100,9 @@ class C04(core.Property):
                 s["term"][0] == "W" for s in d["segs"])]
             # handles to events (for cancel) are entity state too, and the replayed pre-run events are
             # new objects the scripted entities hold no handle to
-            prog["defs"] = [dict(d, segs=[dict(s, acts=[a for a in s["acts"] if a[0] != "X"]) for s in d["segs"]])
+            prog["defs"] = [dict(d, segs=[dict(s, acts=[a for a in s["acts"] if a[0] not in ("X", "RH", "EA")]) for s in d["segs"]])
                             for d in prog["defs"]]
+            prog.pop("held", None)   # pre-created events held by entities are entity state as well
         prog["family"] = f"{mode}/" + ("auto" if prog["end"] is None else "end")
         return prog
 
